@@ -141,10 +141,20 @@ def strip_comments(src):
     return "".join(out)
 
 
+def prop_files(prop_id):
+    """Properties/Cxx.v plus layer-specific companions such as Properties/CxxL1.v."""
+    d = os.path.join(COQ, "Properties")
+    out = []
+    for fn in sorted(os.listdir(d)):
+        if re.match(r"^%s([A-Z][A-Za-z0-9]*)?\.v$" % re.escape(prop_id), fn):
+            out.append("Properties/" + fn)
+    return out
+
+
 def coq_audit(prop_id):
     """Returns dict(ok, problems, theorems, obligations, discharged, axioms, closure)."""
-    prop_file = "Properties/%s.v" % prop_id
-    closure = coq_closure(prop_file)
+    pfiles = prop_files(prop_id)
+    closure = sorted({f for pf in pfiles for f in coq_closure(pf)})
     problems = []
     obligations = discharged = 0
     # forbidden constructs anywhere in the development (not only the closure)
@@ -165,12 +175,15 @@ def coq_audit(prop_id):
         code = strip_comments(open(os.path.join(COQ, rel)).read())
         obligations += len(re.findall(r"^\s*(?:Local\s+|Global\s+|#\[[^\]]*\]\s*)*(Theorem|Lemma|Corollary|Proposition|Fact|Remark|Example)\b", code, re.M))
         discharged += len(re.findall(r"\b(Qed|Defined)\s*\.", code))
-    code = strip_comments(open(os.path.join(COQ, prop_file)).read())
-    theorems = re.findall(r"^\s*(?:Theorem|Corollary)\s+([A-Za-z0-9_']+)", code, re.M)
+    theorems = []
+    for pf in pfiles:
+        code = strip_comments(open(os.path.join(COQ, pf)).read())
+        theorems += re.findall(r"^\s*(?:Theorem|Corollary)\s+([A-Za-z0-9_']+)", code, re.M)
     os.makedirs(os.path.join(CACHE, "audit"), exist_ok=True)
     audit_v = os.path.join(CACHE, "audit", "Audit_%s.v" % prop_id)
     with open(audit_v, "w") as f:
-        f.write("From RV Require Import Properties.%s.\n" % prop_id)
+        for pf in pfiles:
+            f.write("From RV Require Import %s.\n" % pf[:-2].replace("/", "."))
         for t in theorems:
             f.write('Goal True. idtac "@@THM %s". exact I. Qed.\nPrint Assumptions %s.\n' % (t, t))
     rc, out = sh(["coqc", "-noglob", "-Q", COQ, "RV", audit_v], cwd=os.path.dirname(audit_v), timeout=600)
@@ -302,7 +315,7 @@ def coq_stage(rep, extra_targets=()):
     """Build + audit the property's Coq closure; records obligations; returns True when proofs stand."""
     found = regen_params()
     rep.cov["anchors_found"] = found
-    targets = ["Properties/%s.vo" % rep.prop] + list(extra_targets)
+    targets = [pf + "o" for pf in prop_files(rep.prop)] + list(extra_targets)
     rc, out = coq_make(targets)
     rep.cov["checker_cmd"] = ("cd /verif/coq && coq_makefile -f _CoqProject -o Makefile && make -j16 %s ; "
                               "coqc Audit_%s.v (Print Assumptions of every pinned theorem)" % (" ".join(targets), rep.prop))
